@@ -29,7 +29,8 @@ PANIC_SITES = [
     (r"attempted to jump ahead to round", 10, "handleJumpAhead: round"),
     (r"error when calling ConsensusStrategy.EnterRound", 11, "advance: EnterRound error"),
     (r"Byzantine(Majority|Minority): n must be positive", 12, "threshold of zero power"),
-    (r"TODO: handle blocked send", 16, "blocked send to the consensus manager"),
+    (r"requires len\(candidateKeys\) > 0", 16, "recordProposedHeader: previous validator set empty"),
+    (r"TODO: handle blocked send", 17, "blocked send to the consensus manager"),
 ]
 
 SITE_TEXT = {n: t for _, n, t in PANIC_SITES}
@@ -45,7 +46,7 @@ def panic_site(stderr):
         if re.search(rx, msg):
             return n
     if "nil pointer dereference" in msg or "nil pointer dereference" in stderr:
-        if "recordProposedHeader" in stderr and "PubKey" in stderr:
+        if "recordProposedHeader" in stderr:
             return 15
         return 13
     return 99
@@ -150,6 +151,8 @@ def run_harness(c, binary, cases, traces):
             c.fail_obligation("harness-run", "harness died before the first trace: " + err[-800:])
             return results, restarts
         site = panic_site(err)
+        if site == 99:
+            c.notes.append("unrecognised panic in trace %d: %s" % (cur, err[:1200]))
         blocked = results[cur] and results[cur][-1][0] and results[cur][-1][0][-1] == [23]
         if blocked:
             pass
